@@ -156,6 +156,16 @@ func (u *UnitsDefinition) Multipliers() map[int64]*UnitDefinition {
 	return u.MultipliersValue
 }
 
+// floorDiv returns the floor of a / b for a positive b, computed in integers: the float64 division used before
+// rounded dividends above 2^53 and could return a quotient that is too large by one.
+func floorDiv(a int64, b int64) int64 {
+	q := a / b
+	if a%b < 0 {
+		q--
+	}
+	return q
+}
+
 // FormatShortInt formats the passed int according to the UnitDefinition multipliers.
 func (u *UnitsDefinition) FormatShortInt(data int64) string {
 	if data == 0 {
@@ -164,7 +174,7 @@ func (u *UnitsDefinition) FormatShortInt(data int64) string {
 	remainder := data
 	output := ""
 	for _, multiplier := range u.getSortedMultipliersCache() {
-		base := int64(math.Floor(float64(remainder) / float64(multiplier)))
+		base := floorDiv(remainder, multiplier)
 		remainder -= base * multiplier
 		output += formatNumberUnitShort(base, u.Multipliers()[multiplier], false)
 	}
@@ -196,7 +206,7 @@ func (u *UnitsDefinition) FormatLongInt(data int64) string {
 	remainder := data
 	output := ""
 	for _, multiplier := range u.getSortedMultipliersCache() {
-		base := int64(math.Floor(float64(remainder) / float64(multiplier)))
+		base := floorDiv(remainder, multiplier)
 		remainder -= base * multiplier
 		output += u.Multipliers()[multiplier].FormatLongInt(base, false)
 	}
